@@ -75,6 +75,7 @@ def run(ck):
     r6(ck)
     r7(ck)
     r1c_positions_kept(ck)
+    r3c_resolution_table(ck)
     # R8: in the parallel mode "the state left by earlier patches of the same run" is the state of one worker: a file patch sees what was
     # done to its old and new name only if everything that named them ran on the same worker - the grouping of related names (C07)
     from . import c07
@@ -640,3 +641,68 @@ def r1c_positions_kept(ck, rule="C16-R1c"):
                            "the enumerated sequence does not derive from config.series_patches (%s)" % df.show(e, 80), g.where(t),
                            ok_detail="series_patches -> %s -> enumerate" % " -> ".join(c.split("::")[-1] for c in reversed(spine)))
     ck.floor(rule, "enumerations of the series / of the loaded patches in the drivers", n, 2)
+
+
+def r3c_resolution_table(ck, rule="C16-R3c"):
+    """Which name a file patch with two different names is applied to, as a table over what is known about the old name: in memory and
+    not deleted -> old; in memory and deleted -> new; not in memory and on disk -> old; not in memory and not on disk -> new.  Decided by
+    reachability under each of the four valuations (pathconst): only assignments of the result that mention the expected parameter
+    stay reachable."""
+    from .. import pathconst
+    prog = ck.prog
+    ch = ck.anchor("rapidquilt::apply::common::choose_filename_to_patch")
+    if ch is None:
+        return
+    pnames = {ch.local_name(i): i for i in range(1, ch.arg_count + 1)}
+    if not ck.require("old_filename" in pnames and "new_filename" in pnames, rule, "choose_filename_to_patch takes the two names",
+                      "parameters: %s" % sorted(pnames), ch.where()):
+        return
+    po, pn = pnames["old_filename"], pnames["new_filename"]
+    # the result is a reference handed through re-borrows (`_0 = &*_5; _5 = &*_15` in each arm): follow them to the arms
+    def arms(l, seen):
+        out = []
+        for dd in df.defs_of(ch).all(l):
+            if dd[0] != "stmt":
+                continue
+            rv = dd[3]["rv"]
+            src = rv["pl"] if rv["k"] == "ref" else (rv["op"].get("pl") if rv["k"] == "use" and rv["op"].get("k") in ("copy", "move") else None)
+            if src is not None and not [p_ for p_ in src.get("p", []) if p_ != "deref"] and src["l"] > ch.arg_count and src["l"] not in seen and \
+                    len(df.defs_of(ch).all(src["l"])) > 1:
+                out += arms(src["l"], seen | {src["l"]})
+            else:
+                out.append(dd)
+        return out
+    defs = arms(0, {0})
+
+    def which(dd):
+        rv = dd[3]["rv"]
+        e = df.operand_expr(ch, {"k": "copy", "pl": rv["pl"]}) if rv["k"] == "ref" else df.rvalue_expr(ch, rv)
+        o = df.mentions(e, lambda x: isinstance(x, tuple) and x and x[0] == "param" and x[1] == po)
+        n_ = df.mentions(e, lambda x: isinstance(x, tuple) and x and x[0] == "param" and x[1] == pn)
+        return "old" if o and not n_ else "new" if n_ and not o else "?"
+    table = [("in memory, not deleted", "Some", False, None, "old"), ("in memory, deleted", "Some", True, None, "new"),
+             ("not in memory, on disk", "None", None, True, "old"), ("not in memory, not on disk", "None", None, False, "new")]
+    for label, inmem, deleted, ondisk, want in table:
+        def atom(e, deleted=deleted, ondisk=ondisk):
+            if df.is_call(e, "::eq") and len(e[2]) == 2:
+                return False            # the two names differ
+            if df.is_call(e, "::ne") and len(e[2]) == 2:
+                return True
+            if isinstance(e, tuple) and e and e[0] == "field" and e[2] == "deleted" and deleted is not None:
+                return deleted
+            if (df.is_call(e, "std::path::Path::exists") or df.is_call(e, "std::path::Path::try_exists")) and ondisk is not None:
+                return ondisk
+            return None
+
+        def variant(e, adt, inmem=inmem):
+            if df.is_call(e, "HashMap::<K, V, S, A>::get"):
+                return inmem
+            if isinstance(e, tuple) and e and e[0] == "param" and e[1] in (po, pn):
+                return "Some"           # both names are there
+            return None
+        reach = pathconst.reach_under(ch, atom, variant, valuation=lambda e_: None, prog=prog)
+        got = sorted({which(dd) for dd in defs if dd[1] in reach})
+        ck.require(got == [want], rule, "old name %s -> the %s name" % (label, want),
+                   "with the old name %s choose_filename_to_patch can return %s: the file a patch lands on would differ from what a later "
+                   "invocation (or GNU patch) picks" % (label, "the %s name" % "/".join(got) if got else "nothing"), ch.where(),
+                   ok_detail="only the %s name is returned" % want)
